@@ -10,11 +10,9 @@ trap 'git -C /repo worktree remove --force '$WT EXIT
 git -C $WT apply $PATCH || { echo "patch does not apply"; exit 3; }
 bad=0
 for p in $PROPS; do
-  cp evidence/$p.json /tmp/neutral.ev.$$.json 2>/dev/null
-  VERIF_REPO=$WT ./check $p quick > /tmp/neutralcheck.$$.$p.log 2>&1; rc=$?
-  cp /tmp/neutral.ev.$$.json evidence/$p.json 2>/dev/null
+  VERIF_EVIDENCE_DIR=/tmp/scratch-evidence.$$ VERIF_REPO=$WT ./check $p quick > /tmp/neutralcheck.$$.$p.log 2>&1; rc=$?
   if [ $rc != 0 ]; then bad=1; echo "ALARM $p exit=$rc on $(basename $(dirname $PATCH))/$(basename $PATCH)"; grep -E "^VIOLATION|^INCONCLUSIVE|signature:" /tmp/neutralcheck.$$.$p.log | head -4 | cut -c1-400; else rm -f /tmp/neutralcheck.$$.$p.log; fi
 done
-rm -f /tmp/neutral.ev.$$.json
+rm -rf /tmp/scratch-evidence.$$
 [ $bad = 0 ] && echo "quiet on $(basename $(dirname $PATCH))/$(basename $PATCH)"
 exit $bad
